@@ -63,9 +63,11 @@ ASSUMPTIONS = [
     "Python bools",
     "is_active has at least num_vertices entries (shorter: IndexError, modelled); h, w >= 1 for the segmenting "
     "helpers (empty shapes / 0 vertices raise ValueError from int_array; modelled and checked)",
-    "the unbounded equivalence 'diagonal forest condition <=> complement connected' (diag_equiv_statement) is not "
-    "proved; it is kernel-checked for all shapes with h*w <= 16 (diag_equiv_bounded; thorough tier: h*w <= 20, "
-    "Graph/NotAdjBounded20.v) and searched with z3 on the real program for h*w <= 12 (thorough 16)",
+    "(no longer an assumption) the unbounded equivalence 'diagonal forest condition <=> complement connected' "
+    "(diag_equiv_statement) is proved for every h, w >= 2 (Props/C08.v::diag_equiv, from Graph/NotAdjPlanarA.v and "
+    "NotAdjPlanarB.v); independent cross-checks kept: kernel computation for all shapes with h*w <= 16 "
+    "(diag_equiv_bounded; thorough tier: h*w <= 20, Graph/NotAdjBounded20.v) and the z3 search on the real program "
+    "for h*w <= 12 (thorough 16)",
 ]
 
 def generated_obligations(ctx, proof, broken):
